@@ -267,6 +267,9 @@ def judge(segs, stream, required, windows, damaged, cuts, sim, stats, samples, a
         acc.violation(key, f"{len(missing)} required clean packet(s) not delivered; first at offset {first} (preceded by segment {prev})", dict(w, missing=missing[:10]))
     else:
         acc.count("required_packets_delivered", len(required))
+        if damaged and len(segs) < 30:
+            acc.sample({"segments": [[k, len(b)] for k, b in segs], "segmentation": label, "cuts": cuts[:12], "required_packet_offsets": required[:12],
+                        "delivered_window_offsets": delivered_offsets[:12], "max_retained_bytes": max(samples) if samples else 0}, cap=6)
     acc.count("retained_bytes_samples", len(samples))
     worst = max(samples) if samples else 0
     acc.cover("max_retained_bucket", (worst // 32) * 32)
